@@ -140,7 +140,7 @@ Scored(c) == {k \in 1..Len(Gs(c)) : Gs(c)[k].titr = 1 /\ Gs(c)[k].bridged = 0 /\
 C16_Desolvation == \A c \in Confs : \A k \in Scored(c) : LET g == Gs(c)[k] IN
                       /\ (g.q100 < 0 => g.ev6 >= 0 /\ g.el6 >= 0)
                       /\ (g.q100 > 0 => g.ev6 <= 0 /\ g.el6 <= 0)
-C16_Buried == \A c \in Confs : \A k \in 1..Len(Gs(c)) : Gs(c)[k].bur4 >= 0 /\ Gs(c)[k].bur4 <= 10000
+C16_Buried == \A c \in AllConfs : \A k \in 1..Len(Gs(c)) : Gs(c)[k].bur4 >= 0 /\ Gs(c)[k].bur4 <= 10000
 C16_Backbone == \A c \in Confs : \A k \in Scored(c) : LET g == Gs(c)[k] IN
                       \A n \in 1..Len(g.bb) : (g.q100 < 0 => g.bb[n][3] <= 0) /\ (g.q100 > 0 => g.bb[n][3] >= 0)
 (* a Coulomb determinant from a charged partner: stabilising for opposite, destabilising for like charges:
